@@ -407,7 +407,7 @@ fn explore_both(
         param_forms: if thorough {
             ALL_PARAM_FORMS.to_vec()
         } else {
-            vec![ParamForm::One, ParamForm::ConfigSkipped, ParamForm::ConfigKept]
+            vec![ParamForm::One, ParamForm::ConfigSkipped, ParamForm::ConfigKept, ParamForm::BitsSO]
         },
     };
     let budget = Budget {
